@@ -154,6 +154,11 @@ def chk_shape(L, T, p, acc, disp):
         return
     L.check('canonical string == documented rendering', bytes_eq_term(disp, ref))
     L.check('canonical string is printable ASCII', b_and(*[rng(x, 0x21, 0x7E) for x in disp]))
+    prev = None
+    for k, v in acc['quals']:
+        if prev is not None and not seq_lt_term(L, prev, k):
+            L.fail('qualifiers are not printed in ascending key order')
+        prev = k
 
 
 # ------------------------------------------------------------------------------------------ invariants (C04)
